@@ -110,8 +110,12 @@ def m_f64_concrete(ex, f, a):
     import math
     v = a[0]
     while isinstance(v, Ref): v = v.get()
-    if not isinstance(v, float): raise Unsupported('f64 method on a non-concrete float')
     op = f.rsplit('::', 1)[1]
+    if not isinstance(v, float):
+        if op in ('is_finite', 'is_nan', 'abs'):      # symbolic floats: the floating-point theory model
+            from .models_coll import m_float_pred
+            return m_float_pred(ex, f, a)
+        raise Unsupported('f64 method %s on a non-concrete float' % op)
     if op == 'is_finite': return math.isfinite(v)
     if op == 'is_nan': return v != v
     if not math.isfinite(v): return v if op != 'fract' else float('nan')
@@ -392,6 +396,7 @@ def m_from(ex, f, a):
     dstn = dst.strip()
     v = a[0]
     if src.strip() == dstn: return v
+    if dstn == 'f64' and src.strip() == 'f32' and isinstance(v, float): return v      # widening a concrete float is exact
     if src.strip().startswith('impl ') or re.fullmatch(r'[A-Z]\w?', src.strip()):
         # polymorphic MIR (generic caller): the conversion is decided by the run-time value
         t = ex.deref(v)
